@@ -248,3 +248,63 @@ Definition publishes (v0 : list str) (steps : list pstep) (px : pubindex) : bool
   && index_records v0 steps steps px.
 
 End Published.
+
+(** * Part 3: the Index file as text
+
+    A deb822 file: paragraphs separated by one blank line; a field is its name, a
+    colon, the first line of its contents, and one continuation line (a space,
+    then the text, or " ." for an empty line) per further line of contents. *)
+
+Record rfield := mkrf {
+  rf_name : str;
+  rf_first : str;                  (* contents on the line of the name (may be empty) *)
+  rf_conts : list str }.           (* further lines of the contents *)
+
+Definition rf_field (f : rfield) : str * str :=
+  (rf_name f, join [10%N] (rf_first f :: rf_conts f)).
+
+Definition first_line (f : rfield) : str :=
+  rf_name f ++ [58%N] ++ (match rf_first f with [] => [] | _ => 32%N :: rf_first f end) ++ [10%N].
+Definition cont_line (e : str) : str :=
+  32%N :: (match e with [] => [46%N] | _ => e end) ++ [10%N].
+Definition field_lines (f : rfield) : list str := first_line f :: map cont_line (rf_conts f).
+Definition para_lines (p : list rfield) : list str := flat_map field_lines p.
+
+Fixpoint index_lines (ps : list (list rfield)) : list str :=
+  match ps with
+  | [] => []
+  | [p] => para_lines p
+  | p :: ps' => para_lines p ++ [10%N] :: index_lines ps'
+  end.
+
+Section IndexText.
+Variable is_space : N -> bool.
+
+Definition is_alpha_c (c : N) : bool :=
+  ((65 <=? c)%N && (c <=? 90)%N) || ((97 <=? c)%N && (c <=? 122)%N).
+Definition is_name_c (c : N) : bool :=
+  is_alpha_c c || is_ascii_digit c || (c =? 45)%N || (c =? 95)%N.
+
+(** a field name: a letter, then at least one of [A-Za-z0-9_-] *)
+Definition name_ok (n : str) : bool :=
+  match n with
+  | c :: ((_ :: _) as r) => is_alpha_c c && forallb is_name_c r
+  | _ => false
+  end.
+
+(** a line of contents: no LF, no white space at either end *)
+Definition trimmed (e : str) : bool :=
+  match e with
+  | [] => true
+  | c :: _ => negb (is_space c) && negb (is_space (last e c))
+  end
+  && negb (existsb (N.eqb 10) e).
+
+Definition rfield_ok (f : rfield) : bool :=
+  name_ok (rf_name f) && trimmed (rf_first f)
+  && forallb (fun e => trimmed e && negb (str_eqb e [46%N])) (rf_conts f).
+
+Definition index_text_ok (ps : list (list rfield)) : bool :=
+  forallb (fun p => negb (match p with [] => true | _ => false end) && forallb rfield_ok p) ps.
+
+End IndexText.
